@@ -144,13 +144,29 @@ static void run_purity(uint64_t idx, pv_rng* rng) {
     pv_api_free(a); if (b) pv_api_free(b); if (st == POLYSEED_OK) pv_api_free(c);
 }
 
+/* ---------------------------------------------------------------- phrases of every length class, up to the longest each language can produce */
+static uint64_t n_lengths(void) { return (uint64_t)pv_nlangs * pv_scaled(400, 8000); }
+static void run_lengths(uint64_t idx, pv_rng* rng) {
+    pv_mlang* L = &pv_langs[idx % (uint64_t)pv_nlangs];
+    if (!L->lib) return;
+    long mn, mx; pv_lang_length_range(L, &mn, &mx);
+    /* uniform over the whole range: random seeds alone never leave a narrow band around the mean */
+    long target = mn + (long)pv_randn(rng, (uint32_t)(mx - mn + 1));
+    unsigned coin = pv_gen_coin(rng), d[16]; pv_mseed m;
+    if (!pv_gen_exact_length(rng, L, coin, target, 7, d, &m)) { PV_COUNT("lengths.target_unreached", 1); return; }
+    polyseed_data* s = pv_seed_from_model(&m);
+    if (!s) { pv_violation("C03/load-failed", "cannot load %s", pv_mseed_str(&m)); return; }
+    if (check_encode(s, &m, L, coin, "length-class")) { pv_countf(1, "lengths.%s.decile%ld", L->key, (target - mn) * 10 / (mx - mn + 1)); PV_COUNT("lengths.encoded", 1); }
+    pv_api_free(s);
+}
+
 static void init2(void) { init(); g_out = malloc(POLYSEED_STR_SIZE); g_img = malloc(32); }
 static void fini(void) { pv_set_flag("exhaustive.single_bit_seeds_and_pairs", true); }
 
 int main(int argc, char** argv) {
     static const pv_section secs[] = {
         { "bits", n_bits, run_bits }, { "reserved", n_reserved, run_reserved },
-        { "random", n_random, run_random }, { "purity", n_purity, run_purity },
+        { "random", n_random, run_random }, { "purity", n_purity, run_purity }, { "lengths", n_lengths, run_lengths },
     };
-    return pv_main(argc, argv, "C03", secs, 4, init2, fini);
+    return pv_main(argc, argv, "C03", secs, 5, init2, fini);
 }
